@@ -11,6 +11,8 @@
 (*   read        a user callback of the operation ran (it reads the tree)  *)
 (*   snap        v = the version the returned snapshot shows               *)
 (*   nsnap       v = version shown by a snapshot taken by the lock owner   *)
+(*   uses        first acquire of t on lock object number v of this run    *)
+(*   newlock     a lock object was created by a thread of the run          *)
 (*   deviation / not_reentrant / timeout   reported by the scheduler       *)
 (* Each event must be enabled in the protocol state reached so far.        *)
 (***************************************************************************)
@@ -28,6 +30,7 @@ Init0(threads) == [owner |-> None, cnt |-> 0, ver |-> 0,
                    acqver |-> [t \in threads |-> -1],     \* version at the outermost acquire of t
                    acquired |-> [t \in threads |-> FALSE], \* t acquired the lock since its start
                    active |-> [t \in threads |-> FALSE],
+                   lk |-> 0,                               \* the lock object the threads synchronise on (0: none used yet)
                    ok |-> TRUE]
 
 Step(id, op, st, e) ==
@@ -59,6 +62,10 @@ Step(id, op, st, e) ==
           IF /\ Say(st.acquired[t], id, "operation_never_acquired_the_lock", why)
              /\ Say(st.owner # t, id, "lock_still_held_after_operation", why)
           THEN [st EXCEPT !.active[t] = FALSE] ELSE [st EXCEPT !.active[t] = FALSE]
+     [] e.a = "newlock" -> st     \* a lock object was created inside an operation (not in itself a deviation)
+     [] e.a = "uses"  ->          \* first acquire of thread t on lock object e.v: the tree has ONE lock
+          IF Say(st.lk = 0 \/ st.lk = e.v, id, "threads_synchronise_on_different_lock_objects", why)
+          THEN [st EXCEPT !.lk = e.v] ELSE st
      [] e.a = "deviation" -> IF Say(FALSE, id, "schedule_deviation:" \o e.got \o "_instead_of_" \o e.exp, why) THEN st ELSE st
      [] e.a = "not_reentrant" -> IF Say(FALSE, id, "lock_not_reentrant", why) THEN st ELSE st
      [] e.a = "error" -> IF Say(FALSE, id, "operation_raised:" \o e.got, why) THEN st ELSE st
